@@ -33,7 +33,7 @@ def _proc_src(rng, name):
     V = ["i", "j", "n"]
     e1, e2, e3 = _gen(rng, 3, V), _gen(rng, 3, V), _gen(rng, 2, ["i", "j"])
     e4 = _gen(rng, 2, ["i", "n"])
-    shape = rng.choice(["plain", "guard", "bounds", "alloc", "shadow"])
+    shape = rng.choice(["plain", "guard", "bounds", "alloc", "shadow", "divfact", "divfact"])
     L = ["@proc", f"def {name}(n: size, x: R[8], y: R[8]):"]
     if shape == "plain":
         L += [f"    for i in seq({lo_i}, {lo_i} + n):",
@@ -61,6 +61,18 @@ def _proc_src(rng, name):
               f"        for j in seq(0, ({e4}) % 3 + 1):",
               f"            t[j] = x[({e3}) % 8] + 1.0",
               f"        y[({_gen(rng, 3, ['i', 'n'])}) % 8] += t[({e4}) % 3]"]
+    elif shape == "divfact":
+        # a guard fixes the quotient; the remainder of the *same* expression is used below it
+        E = rng.choice(["i", "i + j", f"i + {rng.choice([1, 2, 3])}", "2 * i + j", "i - 1"])
+        M = rng.choice([2, 3, 4])
+        c = rng.choice([0, 1, 1, 2, -1])
+        lhs, rhs = (f"({E}) / {M}", str(c)) if rng.random() < 0.7 else (str(c), f"({E}) / {M}")
+        L += [f"    for i in seq({lo_i}, {lo_i} + n):",
+              f"        for j in seq({lo_j}, {lo_j + rng.choice([1, 2, 3])}):",
+              f"            if {lhs} == {rhs}:",
+              f"                y[(({E}) % {M} + {rng.choice([0, 1, 4])}) % 8] += x[({E}) % {M}]",
+              f"            else:",
+              f"                x[({e3}) % 8] += 1.0"]
     else:  # the same iterator name bound twice in sequence and nested under different bounds
         L += [f"    for i in seq({lo_i}, {lo_i} + n):",
               f"        x[({_gen(rng, 2, ['i', 'n'])}) % 8] += 1.0",
